@@ -28,7 +28,7 @@ ASSUMPTIONS = [
     "fitted third-party estimator objects held by surrogate samplers are excluded from the canonical state",
     "Python scalars compare with == (True == 1, 3 == 3.0); list vs tuple is not a difference",
 ]
-REQUIRED_COUNTERS = {"many_parameter_cases": 8, "relative_folder_cases": 10, "restores_compared": 60, "tuple_roundtrips_json": 40, "tuple_roundtrips_sqlite": 40, "prepopulated_folder": 15,
+REQUIRED_COUNTERS = {"calibrators_without_saving_folder": 6, "convergence_precision_zero": 4, "real_data_with_nonfinite_entries": 4, "many_parameter_cases": 8, "relative_folder_cases": 10, "restores_compared": 60, "tuple_roundtrips_json": 40, "tuple_roundtrips_sqlite": 40, "prepopulated_folder": 15,
                      "no_batch_yet": 3, "after_set_samplers": 3, "convergence_stop": 3, "rl_scheduler": 3}
 SHARDS = {"quick": 16, "thorough": 16}
 SHARD_WATCHDOG = {"quick": 1500, "thorough": 10800}
@@ -92,6 +92,15 @@ def run_cal(desc, ctx, out):
                         n_samplers=int(rng.integers(1, 5)), max_bs=3, params=int(rng.integers(11, 14)) if many else None)
     if many:
         c["many_parameter_cases"] = c.get("many_parameter_cases", 0) + 1
+    if i % 4 == 1:
+        cfg["conv"] = int(rng.choice([0, 0, 3, 9]))   # includes the legal value 0 ("stop when the loss rounds to 0")
+        c["convergence_precision_set"] = c.get("convergence_precision_set", 0) + 1
+        if cfg["conv"] == 0:
+            c["convergence_precision_zero"] = c.get("convergence_precision_zero", 0) + 1
+    if i % 9 == 3 and not heavy:
+        cfg["real_nonfinite"] = [[int(rng.integers(0, 50)), int(rng.integers(0, 3)), str(rng.choice(["nan", "inf", "-inf"]))] for _ in range(int(rng.integers(1, 3)))]
+        c["real_data_with_nonfinite_entries"] = c.get("real_data_with_nonfinite_entries", 0) + 1
+    nofolder = i % 7 == 4 and not rl   # no saving folder: only explicit create_checkpoint() calls write anything
     folder = ctx.scratch() / "ck"
     relative = i % 3 == 1
     if relative:
@@ -133,9 +142,12 @@ def run_cal(desc, ctx, out):
     wit["folder_before"] = pre
     if rl:
         c["rl_scheduler"] = c.get("rl_scheduler", 0) + 1
+    if nofolder:
+        c["calibrators_without_saving_folder"] = c.get("calibrators_without_saving_folder", 0) + 1
+        wit["saving_folder"] = None
     try:
         with quiet():
-            cal = CG.build_calibrator(cfg, folder=str(folder))
+            cal = CG.build_calibrator(cfg, folder=None if nofolder else str(folder))
     except Exception as e:  # noqa: BLE001
         out["violations"].append({"msg": f"constructor raised {type(e).__name__}: {e}", "witness": wit})
         return
@@ -144,6 +156,8 @@ def run_cal(desc, ctx, out):
     first = True
     for _ in range(nops):
         op = str(rng.choice(["calibrate", "calibrate", "calibrate", "checkpoint", "checkpoint", "restore", "set_samplers"]))
+        if nofolder and op == "restore":
+            op = "checkpoint"
         if first and rng.random() < 0.15:
             op = "checkpoint"  # the no-batch-yet state
         first = False
@@ -165,6 +179,10 @@ def run_cal(desc, ctx, out):
                     c["run_ended_by_exception"] = c.get("run_ended_by_exception", 0) + 1
                 return
             batches += n
+            if nofolder:
+                if any(folder.parent.glob("ck/*")) and pre == "empty":
+                    out["violations"].append({"msg": "a calibrator without saving folder wrote files during calibrate()", "witness": wit})
+                continue
             r = compare_restore(cal, folder, model, out, wit, f"after calibrate({n}) [folder held: {pre}]")
             if batches >= 2 and (pre != "empty" or any(s in ("decimal", "nondividing", "tiny", "offset") for s in cfg["space"]["styles"])):
                 out["nontrivial"].append(jhash(wit))
